@@ -2,6 +2,7 @@
 import random
 from typing import Any, Dict, Iterator, List
 
+import core
 from core import Case, Prop, SelfCheckFailure, pack_stable, ISOLATION, REUSE
 from gen import hx, unhx, pool, out_pool, rbytes
 
@@ -104,6 +105,75 @@ def decoded_alone(obj, view, f, what: str, before=None):
                                f"(fields {diff}): decoded objects share state")
 
 
+# ---- the application modifies a PDU (header) it decoded, then decodes again (also used by props/c04.py, c12.py) ----
+MUT_ALL = 1023
+
+
+def mutate_cfdp(mask: int):
+    """a `mutate` for core.redecode_after_mutation on anything that has the public `pdu_header` view (PduHeader itself and
+    the eight PDU classes): changes, through the documented setters only, what the bits of `mask` say -
+    1 crc_flag, 2 file_flag, 4 direction, 8 transmission_mode, 16 seg_ctrl, 32 entity IDs (other width and values),
+    64 transaction sequence number, 128 the object's own crc_flag / file_flag setters (file directives),
+    256 pdu_type + segment_metadata_flag, 512 pdu_data_field_len.  Returns the undo."""
+    def mutate(obj):
+        h = obj.pdu_header
+        ts = core.tolerant_set
+        old = {n: getattr(h, n) for n in ("crc_flag", "file_flag", "direction", "transmission_mode", "seg_ctrl",
+                                          "transaction_seq_num", "pdu_type", "segment_metadata_flag", "pdu_data_field_len")}
+        old_src, old_dst = h.source_entity_id, h.dest_entity_id
+        if mask & 1:
+            ts(h, "crc_flag", CrcFlag(1 - int(old["crc_flag"])))
+        if mask & 2:
+            ts(h, "file_flag", LargeFileFlag(1 - int(old["file_flag"])))
+        if mask & 4:
+            ts(h, "direction", Direction(1 - int(old["direction"])))
+        if mask & 8:
+            ts(h, "transmission_mode", TransmissionMode(1 - int(old["transmission_mode"])))
+        if mask & 16:
+            ts(h, "seg_ctrl", SegmentationControl(1 - int(old["seg_ctrl"])))
+        if mask & 32:
+            w = _ROT.get(int(old_src.byte_len), 1)
+            try:
+                h.set_entity_ids(source_entity_id=UnsignedByteField((int(old_src.value) + 1) % (1 << (8 * w)), w),
+                                 dest_entity_id=UnsignedByteField((int(old_dst.value) + 3) % (1 << (8 * w)), w))
+            except Exception:  # noqa
+                pass
+        if mask & 64:
+            w = _ROT.get(int(old["transaction_seq_num"].byte_len), 1)
+            ts(h, "transaction_seq_num", UnsignedByteField((int(old["transaction_seq_num"].value) + 1) % (1 << (8 * w)), w))
+        if mask & 128 and obj is not h:
+            ts(obj, "crc_flag", CrcFlag(1 - int(old["crc_flag"])))
+            ts(obj, "file_flag", LargeFileFlag(1 - int(old["file_flag"])))
+        if mask & 256:
+            ts(h, "pdu_type", PduType(1 - int(old["pdu_type"])))
+            ts(h, "segment_metadata_flag", SegmentMetadataFlag(1 - int(old["segment_metadata_flag"])))
+        if mask & 512:
+            ts(h, "pdu_data_field_len", (int(old["pdu_data_field_len"]) + 0x0101) % 65536)
+
+        def undo():
+            for n, v in old.items():
+                ts(h, n, v)
+            try:
+                h.set_entity_ids(source_entity_id=old_src, dest_entity_id=old_dst)
+            except Exception:  # noqa
+                pass
+        return undo
+    return mutate
+
+
+def _redecode_probe(raw: bytes, mask: int):
+    """decode, modify the decoded header through its setters, decode again: the same octets, the same header followed by
+    other octets, and the header that differs in every field"""
+    others = [raw + b"\x5a\xa5"]
+    try:
+        n = int(AbstractPduBase.header_len_from_raw(raw))
+        others.append(raw[:n])
+        others.append(contrast_header(_fields(PduHeader.unpack(raw))))
+    except Exception:  # noqa
+        pass
+    core.redecode_after_mutation(PduHeader.unpack, raw, _fields, mutate_cfdp(mask), "PduHeader.unpack", others)
+
+
 def _hdr(a, conf: PduConfig = None) -> PduHeader:
     return PduHeader(pdu_type=PduType(a["ptype"]), segment_metadata_flag=SegmentMetadataFlag(a["segmeta"]),
                      pdu_data_field_len=a["dlen"], pdu_conf=_conf(a) if conf is None else conf)
@@ -173,7 +243,43 @@ def op_hdr_new(a):
     return f
 
 
+def _poison(a):
+    """calls that fail (an unencodable header, a cut / foreign buffer), caught the way a program catches them - key
+    "poison" of a case; what is packed / decoded afterwards must not know about them. Fresh configuration objects only."""
+    def big_len():
+        h = _hdr(a)
+        h.pdu_data_field_len = 1 << 20
+        h.pack()
+
+    def no_seq_num():
+        h = _hdr(a)
+        h.transaction_seq_num = None     # pack() fails after the first octets were produced
+        h.pack()
+
+    def no_dest():
+        h = _hdr(a)
+        h.pdu_conf.dest_entity_id = None
+        h.pack()
+
+    def mismatched():
+        h = _hdr(a)
+        h.set_entity_ids(UnsignedByteField(1, 1), UnsignedByteField(1, 2))
+        h.pack()
+
+    def oversized():
+        _hdr(dict(a, dlen=65536 + a["dlen"] % 1000)).pack()
+
+    def cut():
+        PduHeader.unpack(spec_pack(a)[:5])
+
+    def foreign():
+        PduHeader.unpack(bytes([0xE0]) + spec_pack(a)[1:])
+    core.attempt_all([big_len, no_seq_num, no_dest, mismatched, oversized, cut, foreign])
+
+
 def op_hdr_pack(a):
+    if a.get("poison"):
+        _poison(a)
     conf = shared_conf(a)
     f = _packed(_hdr(a, conf))
     conf_untouched(conf, a, "PduHeader(...).pack()")
@@ -188,6 +294,8 @@ def _digest(h: PduHeader) -> Dict[str, Any]:
 
 def op_hdr_unpack(a):
     raw = unhx(a["raw"])
+    if a.get("mut"):
+        _redecode_probe(raw, a["mut"])
     h = PduHeader.unpack(raw)
     f = _fields(h)
     # the headers decoded by the previous calls are looked at again (decoding this input must not have changed them),
@@ -225,6 +333,8 @@ def op_hdr_verify(a):
 
 def op_hdr_unpack_verify(a):
     raw = unhx(a["raw"])
+    if a.get("mut"):
+        _redecode_probe(raw, a["mut"])
     h = PduHeader.unpack(raw)
     ISOLATION.check("C05:PduHeader", h, _digest)
     n = int(h.verify_length_and_checksum(raw))
@@ -343,9 +453,9 @@ def classify(raw: bytes):
     return "invalid", False          # several reasons apply: any documented class
 
 
-def dec_case(raw: bytes, tag: str) -> Case:
+def dec_case(raw: bytes, tag: str, **extra) -> Case:
     e, ec = classify(raw)
-    return Case({"op": "hdr_unpack", "raw": hx(raw)}, e, errclass=ec, tag=tag)
+    return Case({"op": "hdr_unpack", "raw": hx(raw), **extra}, e, errclass=ec, tag=tag)
 
 
 class C05(Prop):
@@ -555,7 +665,7 @@ class C05(Prop):
         n = 150000 if thorough else 4000
         for i in range(n):
             a = rand_hdr(rng)
-            yield Case({"op": "hdr_pack", **a, "via": i % 2}, "valid", tag="random")
+            yield Case({"op": "hdr_pack", **a, "via": i % 2, **({"poison": 1} if i % 8 == 0 else {})}, "valid", tag="random")
             raw = spec_pack(a)
             sfx = rng.choice([b"", b"", rbytes(rng, 1), rbytes(rng, 2), raw, rbytes(rng, 13)])
             yield dec_case(raw + sfx, "random+suffix")
@@ -624,6 +734,25 @@ class C05(Prop):
             pdu = with_crc(spec_pack(a) + rbytes(rng, d - 2))
             yield Case({"op": "hdr_verify", **a, "data": hx(pdu)}, "valid", tag="verify-large")
             yield Case({"op": "hdr_verify", **a, "data": hx(pdu[:-1])}, "invalid", errclass=True, tag="verify-large")
+
+        # --- the application modifies a header it decoded through the public setters (each alone, all, random subsets:
+        #     key "mut", see mutate_cfdp), then decodes the same octets again; also in front of the length / checksum
+        #     verification of intact and of corrupted PDUs ---
+        singles = [1 << k for k in range(10)] + [MUT_ALL]
+        for i in range(12000 if thorough else 1200):
+            a = rand_hdr(rng, dlen=rng.choice([2, 3, 4, 7, 16, rng.randint(2, 60)]))
+            m = singles[i % len(singles)] if i % 2 == 0 else rng.randint(1, MUT_ALL)
+            hdr = spec_pack(a)
+            yield dec_case(hdr + rng.choice([b"", b"", rbytes(rng, 3)]), "setters-then-decode", mut=m)
+            if i % 3 == 0:
+                body = hdr + rbytes(rng, a["dlen"] - 2)
+                pdu = with_crc(body) if a["crc"] == 1 else body + rbytes(rng, 2)
+                yield Case({"op": "hdr_unpack_verify", "raw": hx(pdu), "mut": m | 1}, "valid", tag="setters-then-verify")
+                if a["crc"] == 1:
+                    b = bytearray(pdu)
+                    b[rng.randrange(len(hdr), len(b))] ^= 1 << rng.randint(0, 7)
+                    yield Case({"op": "hdr_unpack_verify", "raw": hx(bytes(b)), "mut": m | 1}, "invalid", errclass=True,
+                               tag="setters-then-verify")
 
         # --- state leaking between calls / objects (the ops keep the objects decoded by the previous calls and
         #     hand the same PduConfig instance to cases with equal configuration parameters) ---
